@@ -100,6 +100,10 @@ func Oracle(tr *udpx.Trace) (string, []*engine.Finding) {
 					a.promised = p
 				}
 			}
+		case "E":
+			if a := live[op.C]; a != nil && st.AliveBefore && contains(st.ClosedSocks, a.port) && now < a.promised && !a.fastClosed {
+				add("association-expired-early", "step %d %s at %v: a transient read error on the outbound socket tore the association down, it was promised until %v", i, op, now, a.promised)
+			}
 		case "R", "X":
 			a := live[op.C]
 			if a == nil {
@@ -290,6 +294,7 @@ func menu(T time.Duration) []udpx.Op {
 		{K: "R", C: 1, T: 3, N: 50},
 		{K: "S", C: 0, Key: 0, T: 6, N: 21}, // port 8053: not DNS
 		{K: "R", C: 0, T: 6, N: 22},
+		{K: "E", C: 0}, // transient read error on client 0's outbound socket
 		{K: "A", D: time.Second},
 		{K: "A", D: 16 * time.Second},
 		{K: "A", D: 17*time.Second + time.Millisecond},
@@ -319,8 +324,62 @@ func scenario(in input) *engine.Scenario {
 	return sc
 }
 
+// raceScenarios: a second client datagram racing the DNS reply that fast-closes an association
+// with a single DNS query; engine S. Whichever is processed first wins (both outcomes are
+// allowed: closed, or kept). What must not happen: the datagram has already extended the
+// deadline (it was accepted on this association) and the reply still moves the deadline back
+// to "now" - the deadline never moves earlier.
+func raceScenarios() []*engine.Scenario {
+	var out []*engine.Scenario
+	inputs := [][]udpx.Op{
+		{{K: "S", C: 0, Key: 0, T: 0, N: 30}, {K: "A", D: 5 * time.Second}, {K: "P", Par: []udpx.Op{{K: "S", C: 0, Key: 0, T: 0, N: 31}, {K: "R", C: 0, T: 0, N: 40}}}, {K: "S", C: 0, Key: 0, T: 0, N: 32}},
+		{{K: "S", C: 0, Key: 0, T: 0, N: 30}, {K: "A", D: 2 * time.Second}, {K: "P", Par: []udpx.Op{{K: "S", C: 0, Key: 0, T: 1, N: 31}, {K: "R", C: 0, T: 3, N: 40}}}},
+	}
+	for i, ops := range inputs {
+		ops := ops
+		tr := &udpx.Trace{}
+		sc := &engine.Scenario{Name: fmt.Sprintf("nat-race-%d", i), Opt: vrt.Options{Horizon: udpx.Horizon}}
+		sc.Body = func() {
+			udpx.Run(udpx.Config{Keys: udpx.DefaultKeys(), NatTimeout: 300 * time.Second}, ops, tr)
+		}
+		sc.Check = func(x *vrt.Exec) (string, bool, []*engine.Finding) {
+			fs := hk.Generic(x, hk.Opts{Leaks: true})
+			obs := ""
+			if len(fs) == 0 {
+				ext := map[string]int{} // socket -> number of deadline extensions (= datagrams accepted on it)
+				for si, st := range tr.Steps {
+					for _, ev := range st.Net {
+						if ev.Kind != "udp.setreaddeadline" {
+							continue
+						}
+						d := time.Duration(ev.N)
+						switch {
+						case d > ev.T:
+							ext[ev.A]++
+							obs += "e"
+						case st.Op.K == "Q" || st.Op.K == "END":
+							obs += "q"
+						default:
+							obs += "c"
+							if ext[ev.A] >= 2 {
+								fs = append(fs, &engine.Finding{Sig: "deadline-moved-earlier", Msg: fmt.Sprintf("step %d: socket %s had accepted %d client datagrams (deadline extended to beyond %v) and its deadline was then moved back to now by the DNS reply's fast close", si, ev.A, ext[ev.A], ev.T)})
+							}
+						}
+					}
+				}
+			}
+			return obs, true, fs
+		}
+		out = append(out, sc)
+	}
+	return out
+}
+
 func init() {
 	hk.Register("C14", func(ctx *engine.Ctx) {
+		for _, sc := range raceScenarios() {
+			engine.ExploreS(ctx, sc, engine.SConfig{Bound: 3, Shard: ctx.Shard, NShards: ctx.NShards, Deadline: ctx.Deadline})
+		}
 		depth := 4
 		if ctx.Tier == "thorough" {
 			depth = 5
@@ -351,9 +410,12 @@ func init() {
 				ctx.RunCase("nat-life", "Q", scenario(in), in, nil)
 			}
 		}
-		ctx.Res.Note("nat-life: all 15^%d sequences for NAT timeouts 300 s and 10 s", depth)
+		ctx.Res.Note("nat-life: all 16^%d sequences for NAT timeouts 300 s and 10 s", depth)
 	})
 	hk.Replayers["C14"] = func(ctx *engine.Ctx, rp engine.Replay) []*engine.Finding {
+		if strings.HasPrefix(rp.Unit, "nat-race") {
+			return engine.ReplayScenario(raceScenarios(), rp)
+		}
 		var in input
 		if err := json.Unmarshal(rp.Input, &in); err != nil {
 			return []*engine.Finding{{Sig: "BROKEN:bad-input", Msg: err.Error()}}
